@@ -44,8 +44,8 @@ ANCHORS = [
 ]
 FLOORS = {'*': {'history:cases': 300, 'history:probes-after-failure': 50, 'history:probes-after-context-request': 50, 'history:step-that-raised-out-of-dispatch': 50,
                 'leak:function': 6, 'leak:positional-context': 6, 'leak:view': 6, 'leak:base': 6, 'leak:jsonschema': 6,
-                'leak:pydantic': 6, 'leak:N=1000': 3, 'threads:runs': 4, 'threads:injected-yields': 1000,
-                'threads:distinct-lines': 20, 'threads:overlapping-dispatches': 100, 'threads:responses': 2000, 'threads:cold-dispatcher-with-middlewares': 40, 'growth:runs': 8}}
+                'leak:pydantic': 6, 'leak:N=1000': 3, 'leak:hooks-that-raise': 6, 'leak:dispatch-raised-from-a-hook': 30, 'threads:runs': 4, 'threads:injected-yields': 1000,
+                'threads:distinct-lines': 20, 'threads:overlapping-dispatches': 100, 'threads:responses': 2000, 'threads:interpreter-state-samples': 2000, 'threads:cold-dispatcher-with-middlewares': 40, 'growth:runs': 8}}
 
 
 # ---------------------------------------------------------------------------------------------------- history
@@ -82,6 +82,7 @@ def history_pool(rng):
 def run_history(ctx, history, probe, is_async):
     kind = 'async' if is_async else 'sync'
     used = world.World(is_async, 3)
+    state0 = interpreter_state()
     token = 0
     any_fail, any_ctx = False, False
     for h in history:
@@ -104,6 +105,13 @@ def run_history(ctx, history, probe, is_async):
     fresh = world.World(is_async, 3)
     b = serverside.observe(fresh, ptext, context=world.Context('PROBE'))
     ctx.hit('history:cases')
+    state1 = interpreter_state()
+    if state1 != state0:
+        ctx.violation('interpreter-wide-setting-changed-by-dispatch:left-changed:' + ','.join(state_diff(state0, state1)), 'history',
+                      (json.dumps(history, default=str), probe, kind, 'state'), history=history, before=state0, after=state1)
+        sys.set_int_max_str_digits(state0['int_max_str_digits'])
+        sys.setrecursionlimit(state0['recursion_limit'])
+        return
     if any_fail:
         ctx.hit('history:probes-after-failure')
     if any_ctx:
@@ -130,7 +138,7 @@ class Sentinel:
     """created inside a method body for one request"""
 
 
-def build_leak_dispatcher(style, validator_name, is_async, refs):
+def build_leak_dispatcher(style, validator_name, is_async, refs, hooks=False):
     if validator_name == 'base':
         validator = validators.BaseValidator()
         deco = validator.validate
@@ -140,7 +148,31 @@ def build_leak_dispatcher(style, validator_name, is_async, refs):
     else:
         validator = validators.pydantic.PydanticValidator()
         deco = validator.validate
-    disp = (pjrpc.server.AsyncDispatcher if is_async else pjrpc.server.Dispatcher)()
+    kw = {}
+    if hooks:
+        # a middleware and an error handler that raise for particular requests: such a dispatch raises out to the caller
+        # (who logs it and keeps serving); what the library holds for that request must be let go all the same
+        def trip_mw(request, context, handler):
+            if request.method == 'trip-mw':
+                raise RuntimeError('hook failed')
+            return handler(request, context)
+
+        def trip_eh(request, context, error):
+            if request.method == 'trip-eh':
+                raise RuntimeError('handler failed')
+            return error
+
+        async def a_trip_mw(request, context, handler):
+            if request.method == 'trip-mw':
+                raise RuntimeError('hook failed')
+            return await handler(request, context)
+
+        async def a_trip_eh(request, context, error):
+            if request.method == 'trip-eh':
+                raise RuntimeError('handler failed')
+            return error
+        kw = dict(middlewares=[a_trip_mw if is_async else trip_mw], error_handlers={None: [a_trip_eh if is_async else trip_eh]})
+    disp = (pjrpc.server.AsyncDispatcher if is_async else pjrpc.server.Dispatcher)(**kw)
 
     if style == 'view':
         class LeakView(pjrpc.server.ViewMixin):
@@ -175,11 +207,11 @@ def build_leak_dispatcher(style, validator_name, is_async, refs):
     return disp, validator
 
 
-def run_leak(ctx, style, validator_name, is_async, n):
+def run_leak(ctx, style, validator_name, is_async, n, hooks=False):
     refs = {'views': [], 'sentinels': [], 'contexts': []}
-    disp, validator = build_leak_dispatcher(style, validator_name, is_async, refs)
+    disp, validator = build_leak_dispatcher(style, validator_name, is_async, refs, hooks)
     kind = 'async' if is_async else 'sync'
-    cls = (style, validator_name, kind, n)
+    cls = (style, validator_name, kind, n, hooks)
     ctx.hit('leak:' + {'function': 'function', 'positional-context': 'positional-context', 'view': 'view'}[style])
     ctx.hit('leak:' + validator_name)
     ctx.hit(f'leak:N={n}')
@@ -189,11 +221,24 @@ def run_leak(ctx, style, validator_name, is_async, n):
     texts.append(json.dumps({'jsonrpc': '2.0', 'id': 3, 'method': 'bad', 'params': ['rpc']}))   # protocol error
     texts.append(json.dumps({'jsonrpc': '2.0', 'method': 'bad'}))                               # failing notification
     texts.append(json.dumps({'jsonrpc': '2.0', 'id': 4, 'method': 'nope'}))
+    trips = []
+    if hooks:
+        trips = [json.dumps({'jsonrpc': '2.0', 'id': 5, 'method': 'trip-mw'}), json.dumps({'jsonrpc': '2.0', 'id': 6, 'method': 'trip-eh'}),
+                 json.dumps([{'jsonrpc': '2.0', 'id': 7, 'method': 'm'}, {'jsonrpc': '2.0', 'method': 'trip-mw'}])]
+        texts[3:3] = trips[:2]
+        texts.append(trips[2])
+        ctx.hit('leak:hooks-that-raise')
 
     def one(i):
         c = world.Context(i)
         refs['contexts'].append(weakref.ref(c))
         t = texts[i % len(texts)]
+        if t in trips:
+            try:
+                world.run(disp.dispatch(t, context=c)) if is_async else disp.dispatch(t, context=c)
+            except RuntimeError:
+                ctx.hit('leak:dispatch-raised-from-a-hook')      # expected: the hook's own exception
+            return None
         out = world.run(disp.dispatch(t, context=c)) if is_async else disp.dispatch(t, context=c)
         return out
 
@@ -305,12 +350,30 @@ def run_growth(ctx, is_async, what):
 INJ_TOOL = 4
 
 
+def interpreter_state():
+    """interpreter-wide settings a library has no business changing while it serves a request (each of them alters how
+    OTHER requests, served concurrently or later, are parsed, executed or reported)"""
+    import decimal
+    import logging
+    import warnings
+    return {'int_max_str_digits': sys.get_int_max_str_digits(), 'recursion_limit': sys.getrecursionlimit(),
+            'warning_filters': len(warnings.filters), 'logging_disabled_level': logging.root.manager.disable,
+            'root_logger_level': logging.root.level, 'decimal_precision': decimal.getcontext().prec,
+            'json_default_encoder': id(json._default_encoder), 'json_default_decoder': id(json._default_decoder),
+            'trace_function': sys.gettrace() is not None, 'excepthook': id(sys.excepthook)}
+
+
+def state_diff(a, b):
+    return sorted(k for k in a if a[k] != b[k])
+
+
 class Injector:
     def __init__(self, repo, prob, seed):
         import os
         import random
         base = os.path.join(os.path.realpath(repo), 'pjrpc', 'server') + os.sep
-        self.files = (base + 'dispatcher.py', base + 'validators' + os.sep)
+        self.files = (base + 'dispatcher.py', base + 'validators' + os.sep,
+                      os.path.join(os.path.realpath(repo), 'pjrpc', 'common') + os.sep)
         self.prob = prob
         self.rng = random.Random(seed)
         self.lock = threading.Lock()
@@ -331,7 +394,7 @@ class Injector:
 
     def _on_line(self, code, line):
         fn = code.co_filename
-        if not (fn == self.files[0] or fn.startswith(self.files[1])):
+        if not (fn == self.files[0] or fn.startswith(self.files[1]) or fn.startswith(self.files[2])):
             return sys.monitoring.DISABLE
         with self.lock:
             go = self.rng.random() < self.prob
@@ -405,6 +468,8 @@ def run_threads(ctx, n_threads, per_thread, prob, middlewares=False):
     lock = threading.Lock()
     corpora = [thread_corpus(t, per_thread) for t in range(n_threads)]
     barrier = threading.Barrier(n_threads)
+    state0 = interpreter_state()
+    drift = []
 
     def worker(t):
         out = []
@@ -421,6 +486,8 @@ def run_threads(ctx, n_threads, per_thread, prob, middlewares=False):
                 out.append(('ret', r))
             except Exception as e:
                 out.append(('exc', e))
+            if sys.get_int_max_str_digits() != state0['int_max_str_digits'] or sys.getrecursionlimit() != state0['recursion_limit']:
+                drift.append((t, text, interpreter_state()))     # seen from one thread while others are inside dispatch
             with lock:
                 state['inside'] -= 1
         results[t] = out
@@ -438,6 +505,17 @@ def run_threads(ctx, n_threads, per_thread, prob, middlewares=False):
     finally:
         inj.stop()
         sys.setswitchinterval(old)
+    state1 = interpreter_state()
+    ctx.hit('threads:interpreter-state-samples', sum(len(c) for c in corpora))
+    if drift or state1 != state0:
+        what = state_diff(state0, drift[0][2] if drift else state1)
+        ctx.violation('interpreter-wide-setting-changed-by-dispatch:' + ('left-changed' if state1 != state0 else 'while-other-threads-serve')
+                      + ':' + ','.join(what), 'threads', ('threads', n_threads, prob, 'state'), threads=n_threads, before=state0,
+                      after=state1, observed_in_flight=[list(d[:2]) for d in drift[:3]], times_observed=len(drift))
+        # restore what can be restored so that the rest of the shard is judged on its own
+        sys.set_int_max_str_digits(state0['int_max_str_digits'])
+        sys.setrecursionlimit(state0['recursion_limit'])
+        return
     ctx.hit('threads:runs')
     ctx.hit('threads:injected-yields', inj.yields)
     ctx.hit('threads:distinct-lines', len(inj.lines))
@@ -515,6 +593,7 @@ def gen(ctx):
             for is_async in (False, True):
                 for n in (1, 10, 1000):
                     yield 'leak', dict(style=style, validator_name=vname, is_async=is_async, n=n)
+                yield 'leak', dict(style=style, validator_name=vname, is_async=is_async, n=40, hooks=True)
     for n_threads, prob in ([(2, 0.1), (4, 0.05), (8, 0.1), (16, 0.02), (3, 0.2), (8, 0.02), (12, 0.1), (16, 0.2)] if not deep else
                             [(t, p) for t in (2, 3, 4, 6, 8, 12, 16) for p in (0.01, 0.02, 0.05, 0.1, 0.2, 0.4)] * 3):
         yield 'threads', dict(n_threads=n_threads, per_thread=200 if not deep else 400, prob=prob)
